@@ -63,6 +63,8 @@ var c19ReqHdrAtoms = []c19HdrAtom{
 	{ID: "te-gzip", Key: "Te", Vals: []string{"gzip"}},
 	{ID: "bad-name", Key: "X Bad", Vals: []string{"v"}, Invalid: true},
 	{ID: "bad-value", Key: "X-Bad", Vals: []string{"a\nb"}, Invalid: true},
+	// (appended, so that the indices recorded in older replay files keep their meaning)
+	// Content-Length set in http.Request.Header, over the spelling alphabet c19CLSpellings
 }
 
 var c19RspHdrAtoms = []c19HdrAtom{
@@ -82,7 +84,80 @@ var c19RspHdrAtoms = []c19HdrAtom{
 	{ID: "proxy-connection", Key: "Proxy-Connection", Vals: []string{"keep-alive"}},
 	{ID: "transfer-encoding", Key: "Transfer-Encoding", Vals: []string{"chunked"}},
 	{ID: "upgrade", Key: "Upgrade", Vals: []string{"h2c"}},
-	{ID: "content-length-malformed", Key: "Content-Length", Vals: []string{"abc"}, Invalid: true},
+	// a handler-set Content-Length is a message net/http accepts whatever its value: the writer may
+	// keep a well-formed value and may drop a malformed one, but must not emit what its own parser rejects
+	{ID: "content-length-malformed", Key: "Content-Length", Vals: []string{"abc"}},
+	// (appended, so that the indices recorded in older replay files keep their meaning)
+	// handler-set Content-Length over the spelling alphabet c19CLSpellings
+}
+
+// The Content-Length spelling alphabet (besides "5" / "99" and "abc" above): the boundaries of
+// "1*DIGIT, representable" as strconv.ParseUint(.., 10, 63) / ParseInt(.., 10, 64) / Atoi and the
+// RFC 9110 8.6 grammar draw them: zero, leading zero, two digits, the largest int64 and one more,
+// explicit signs on positive / zero / negative numbers, outer white space, a base prefix, the
+// empty value, a list in one value, and two field values (identical, differing).
+var c19CLSpellings = [][]string{
+	{"0"}, {"05"}, {"10"}, {"9223372036854775807"}, {"9223372036854775808"},
+	{"+5"}, {"-0"}, {"+0"}, {"-5"}, {" 5"}, {"5 "}, {"0x5"}, {""}, {"5,5"}, {"5", "5"}, {"5", "6"},
+}
+
+func init() {
+	for _, vals := range c19CLSpellings {
+		at := c19HdrAtom{ID: fmt.Sprintf("content-length=%q", vals), Key: "Content-Length", Vals: vals}
+		c19ReqHdrAtoms = append(c19ReqHdrAtoms, at)
+		c19RspHdrAtoms = append(c19RspHdrAtoms, at)
+	}
+}
+
+// c19CLClass classifies the Content-Length values a message carries (RFC 9110, 8.6:
+// Content-Length = 1*DIGIT; identical repetitions may be folded, anything else is invalid).
+func c19CLClass(vals []string) string {
+	for _, v := range vals[1:] {
+		if v != vals[0] {
+			return "differing"
+		}
+	}
+	switch sp := c19CLSpelling(vals[0]); {
+	case sp != "digits":
+		return sp
+	case c19ModelCL(c19View{HasCL: true, CL: vals[0]}) < 0:
+		return "unrepresentable"
+	}
+	return "well-formed"
+}
+
+// c19CLSpelling names the way a single Content-Length value departs from 1*DIGIT.
+func c19CLSpelling(v string) string {
+	switch {
+	case v == "":
+		return "empty"
+	case c19AllDigits(v):
+		return "digits"
+	case (v[0] == '+' || v[0] == '-') && c19AllDigits(v[1:]):
+		return "signed"
+	case strings.ContainsAny(v, " \t"):
+		return "whitespace"
+	case strings.Contains(v, ","):
+		return "list"
+	}
+	return "other"
+}
+
+// c19EmitClause names the first clause of the statement an emitted section violates ("" = none);
+// a non-numeric Content-Length is qualified by its spelling.
+func c19EmitClause(kind c19Kind, emitted []c19Field) string {
+	viol := c19JudgeAll(kind, emitted)
+	if len(viol) == 0 {
+		return ""
+	}
+	if viol[0] == "content-length-not-numeric" {
+		for _, f := range emitted {
+			if f.N == "content-length" && !c19AllDigits(f.V) {
+				return viol[0] + ":" + c19CLSpelling(f.V)
+			}
+		}
+	}
+	return viol[0]
 }
 
 // header-atom choices: all sets of at most k atoms with pairwise distinct names
@@ -370,12 +445,17 @@ func c19RunReqMsg(m c19ReqMsg) (outcome string, fail *explore.Fail) {
 	explore.Must(pathOK, "writer accepted a message whose :path the model cannot derive: %v", m)
 	if err != nil {
 		emitted := c19DecodeAll(block)
-		if viol := c19JudgeAll(c19Req, emitted); len(viol) > 0 {
-			return "", explore.Failf("writer-request/emits-malformed:"+viol[0],
-				"the request writer emits a field section that violates %v and its own parser rejects it (%v); emitted %v", viol, err, c19Human(emitted, false))
+		if cl := c19EmitClause(c19Req, emitted); cl != "" {
+			return "", explore.Failf("writer-request/emits-malformed:"+cl,
+				"the request writer emits a field section that violates %v and its own parser rejects it (%v); emitted %v", c19JudgeAll(c19Req, emitted), err, c19Human(emitted, false))
 		}
 		return "", explore.Failf("writer-request/output-rejected:"+c19ShortErr(err),
 			"the parser rejects what the request writer emitted for a valid message: %v; emitted %v", err, c19Human(emitted, false))
+	}
+	if cl := c19EmitClause(c19Req, c19DecodeAll(block)); cl != "" {
+		// (accepted => well-formed) and (emitted => accepted) leave no room for this
+		return "", explore.Failf("writer-request/emits-malformed-accepted:"+cl,
+			"the request writer emits a field section that violates %v and the parser accepts it; emitted %v", c19JudgeAll(c19Req, c19DecodeAll(block)), c19Human(c19DecodeAll(block), false))
 	}
 	if g, w := c19RenderRequest(got), c19ModelRequest(c19ViewOf(want)); g != w {
 		return "", explore.Failf("writer-request/fields-differ:"+c19DiffTag(g, w),
@@ -404,6 +484,9 @@ func c19RunReqMsg(m c19ReqMsg) (outcome string, fail *explore.Fail) {
 	if len(got.Trailer) > 0 {
 		out += ", trailers announced"
 	}
+	if vals := req.Header["Content-Length"]; len(vals) > 0 {
+		out += ", Header Content-Length (" + c19CLClass(vals) + ") not sent"
+	}
 	// trailers
 	wantT := m.expectTrailers()
 	tblock, thf, ok := c19ReadHeadersFrame(r)
@@ -415,8 +498,8 @@ func c19RunReqMsg(m c19ReqMsg) (outcome string, fail *explore.Fail) {
 		if err != nil {
 			emitted := c19DecodeAll(tblock)
 			key := "output-rejected:" + c19ShortErr(err)
-			if viol := c19JudgeAll(c19Trl, emitted); len(viol) > 0 {
-				key = "emits-malformed:" + viol[0]
+			if cl := c19EmitClause(c19Trl, emitted); cl != "" {
+				key = "emits-malformed:" + cl
 			}
 			return "", explore.Failf("writer-request-trailers/"+key, "the parser rejects the trailer section the request writer emitted: %v; emitted %v", err, c19Human(emitted, false))
 		}
@@ -472,6 +555,7 @@ type c19RspMsg struct {
 	Date    bool  `json:"date"`
 	Body    bool  `json:"body"`
 	Trailer int   `json:"trailer"`
+	Body2   bool  `json:"second_write"` // a second Write of 5 bytes (body lengths 0 / 5 / 10)
 }
 
 var c19RspTrailers = []string{
@@ -495,15 +579,36 @@ func (m c19RspMsg) human() []string {
 		hs = append(hs, fmt.Sprintf("%s: %q", at.Key, at.Vals))
 	}
 	return []string{
-		fmt.Sprintf("handler: Header %v, Date set=%v, early hints=%v, WriteHeader(%d), body written=%v, HEAD=%v", hs, m.Date, m.Early, m.Status, m.Body, m.Head),
+		fmt.Sprintf("handler: Header %v, Date set=%v, early hints=%v, WriteHeader(%d), body written=%v (twice=%v), HEAD=%v", hs, m.Date, m.Early, m.Status, m.Body, m.Body2, m.Head),
 		"trailers: " + c19RspTrailers[m.Trailer],
 	}
 }
 
 type c19RspExpect struct {
-	status  int
-	fields  []c19Field
-	trailer http.Header // nil: no trailer section
+	status int
+	fields []c19Field // every field of the handler's header map that may be sent
+	// the same without Content-Length, when the statement leaves the writer that choice: the
+	// value the handler set is not a well-formed Content-Length (kept, it could not be accepted),
+	// or the section is a 1xx one (RFC 9110 8.6: no Content-Length in a 1xx response)
+	withoutCL []c19Field
+	clClass   string      // c19CLClass of the handler-set Content-Length, "" if none
+	trailer   http.Header // nil: no trailer section
+}
+
+func c19SectionOf(status int, fs []c19Field, h http.Header) c19RspExpect {
+	sec := c19RspExpect{status: status, fields: fs}
+	if vals := h["Content-Length"]; len(vals) > 0 {
+		sec.clClass = c19CLClass(vals)
+		if sec.clClass != "well-formed" || status < 200 {
+			sec.withoutCL = []c19Field{}
+			for _, f := range fs {
+				if f.N != "content-length" {
+					sec.withoutCL = append(sec.withoutCL, f)
+				}
+			}
+		}
+	}
+	return sec
 }
 
 // c19RunHandler plays the handler script on h (the real writer's header map, or the model's
@@ -524,7 +629,7 @@ func (m c19RspMsg) script(h http.Header, writeHeader func(int), write func([]byt
 	} else {
 		h["Date"] = nil // suppresses the automatic Date, like net/http
 	}
-	if m.Body {
+	if m.Body || m.Body2 {
 		h["Content-Type"] = []string{"text/plain"} // no sniffing
 	}
 	switch m.Trailer {
@@ -544,6 +649,9 @@ func (m c19RspMsg) script(h http.Header, writeHeader func(int), write func([]byt
 	writeHeader(m.Status)
 	if m.Body {
 		write([]byte("hello"))
+	}
+	if m.Body2 {
+		write([]byte("world"))
 	}
 	switch m.Trailer {
 	case 1, 4:
@@ -577,10 +685,11 @@ func (m c19RspMsg) expect() (sections []c19RspExpect, body string) {
 		fs := []c19Field{{":status", strconv.Itoa(status)}}
 		return append(fs, c19WireFields(h, func(k string) bool { return d[k] || strings.HasPrefix(k, http.TrailerPrefix) })...)
 	}
-	var early []c19Field
+	var early *c19RspExpect
 	m.script(h, func(status int) {
 		if status < 200 {
-			early = headerFields(status) // 1xx sections are sent at once (RFC 9110, 15.2)
+			sec := c19SectionOf(status, headerFields(status), h) // 1xx sections are sent at once (RFC 9110, 15.2)
+			early = &sec
 		}
 	}, func(b []byte) {
 		if m.Status != 204 && m.Status != 304 && !m.Head {
@@ -588,10 +697,10 @@ func (m c19RspMsg) expect() (sections []c19RspExpect, body string) {
 		}
 	})
 	if early != nil {
-		sections = append(sections, c19RspExpect{status: http.StatusEarlyHints, fields: early})
+		sections = append(sections, *early)
 	}
 	// the final section is serialised when the handler is done (nothing is flushed before)
-	final := c19RspExpect{status: m.Status, fields: headerFields(m.Status)}
+	final := c19SectionOf(m.Status, headerFields(m.Status), h)
 	tr := http.Header{}
 	for k := range declared() {
 		if vv := h[k]; len(vv) > 0 {
@@ -670,16 +779,45 @@ func c19RunRspMsg(m c19RspMsg) (outcome string, fail *explore.Fail) {
 				emitted = c19DecodeAll(b)
 			}
 			key := "output-rejected:" + c19ShortErr(err)
-			if viol := c19JudgeAll(c19Rsp, emitted); len(viol) > 0 {
-				key = "emits-malformed:" + viol[0]
+			if cl := c19EmitClause(c19Rsp, emitted); cl != "" {
+				key = "emits-malformed:" + cl
+			} else if v := c19ViewOf(emitted); v.HasCL && c19ModelCL(v) < 0 {
+				key = "output-rejected:content-length-unrepresentable" // 1*DIGIT, but beyond int64
+			}
+			if sec.status < 200 {
+				key += "/1xx" // informational sections are serialised by another path (WriteHeader -> writeHeader at once)
 			}
 			return "", explore.Failf("writer-response/"+key,
 				"the client rejects (%v, stream reset %v) the %d response section the response writer emitted for a valid message; on the wire: %v", err, cfake.cancelRead, sec.status, emittedAll())
 		}
-		view := c19ViewOf(sec.fields)
-		h, ann := c19SplitTrailer(c19HeaderOf(view, false, true))
-		w := fmt.Sprintf("status=%d proto=%q cl=%d header=%s trailer=%q", sec.status, "HTTP/3.0", c19RspCL(sec.status, c19ModelCL(view)), c19RenderHeader(h), ann)
-		if g := c19RenderResponse(res); g != w {
+		{
+			// (accepted => well-formed) and (emitted => accepted) leave no room for a malformed accepted section
+			r := bytes.NewReader(wire)
+			var emitted []c19Field
+			for j := 0; j <= i; j++ {
+				b, _, ok := c19ReadHeadersFrame(r)
+				explore.Must(ok, "section %d missing", j)
+				emitted = c19DecodeAll(b)
+			}
+			if cl := c19EmitClause(c19Rsp, emitted); cl != "" {
+				return "", explore.Failf("writer-response/emits-malformed-accepted:"+cl,
+					"the response writer emits a %d section that violates %v and the client accepts it; on the wire: %v", sec.status, c19JudgeAll(c19Rsp, emitted), emittedAll())
+			}
+		}
+		render := func(fs []c19Field) (c19View, []string, string) {
+			view := c19ViewOf(fs)
+			h, ann := c19SplitTrailer(c19HeaderOf(view, false, true))
+			return view, ann, fmt.Sprintf("status=%d proto=%q cl=%d header=%s trailer=%q", sec.status, "HTTP/3.0", c19RspCL(sec.status, c19ModelCL(view)), c19RenderHeader(h), ann)
+		}
+		view, ann, w := render(sec.fields)
+		g := c19RenderResponse(res)
+		if g != w && sec.withoutCL != nil {
+			// the writer may have left the handler's Content-Length out
+			if v2, a2, w2 := render(sec.withoutCL); g == w2 {
+				view, ann, w = v2, a2, w2
+			}
+		}
+		if g != w {
 			return "", explore.Failf("writer-response/fields-differ:"+c19DiffTag(g, w),
 				"parse(write(response)) differs from the message\n   got  %s\n   want %s\n   on the wire %v", c19Trunc(g), c19Trunc(w), emittedAll())
 		}
@@ -713,8 +851,13 @@ func c19RunRspMsg(m c19RspMsg) (outcome string, fail *explore.Fail) {
 		} else if len(ann) > 0 {
 			out += ", trailers announced only"
 		}
-		if view.HasCL {
+		switch {
+		case view.HasCL && sec.clClass == "well-formed":
 			out += ", content-length"
+		case view.HasCL:
+			out += ", content-length (" + sec.clClass + ") kept"
+		case sec.clClass != "":
+			out += ", content-length (" + sec.clClass + ") left out"
 		}
 		return out, nil
 	}
@@ -728,9 +871,9 @@ func c19RspLattice(e explore.Env) []c19RspMsg {
 			for _, early := range []bool{false, true} {
 				for _, head := range []bool{false, true} {
 					for _, date := range []bool{false, true} {
-						for _, body := range []bool{false, true} {
+						for _, body := range [][2]bool{{false, false}, {true, false}, {true, true}} {
 							for t := range c19RspTrailers {
-								l = append(l, c19RspMsg{status, early, head, hdr, date, body, t})
+								l = append(l, c19RspMsg{status, early, head, hdr, date, body[0], t, body[1]})
 							}
 						}
 					}
